@@ -79,6 +79,7 @@ func (sub *safeSubmissionState) request(logURL string, cancel context.CancelFunc
 	defer sub.mu.Unlock()
 	if sub.results[logURL] != nil {
 		// Already requested.
+		verifTrace(sub, "request-dup", logURL, false)
 		return false
 	}
 	sub.results[logURL] = &submissionResult{}
@@ -91,9 +92,11 @@ func (sub *safeSubmissionState) request(logURL string, cancel context.CancelFunc
 	}
 	if !isAwaited {
 		// No groups expecting result from this Log.
+		verifTrace(sub, "request-unneeded", logURL, false)
 		return false
 	}
 	sub.cancels[logURL] = cancel
+	verifTrace(sub, "request-first", logURL, true)
 	return true
 }
 
@@ -105,6 +108,7 @@ func (sub *safeSubmissionState) setResult(logURL string, sct *ct.SignedCertifica
 	defer sub.mu.Unlock()
 	if sct == nil {
 		sub.results[logURL] = &submissionResult{sct: sct, err: err}
+		verifTrace(sub, "setResult", logURL, false)
 		return
 	}
 	// If at least one group needs that SCT, result is set. Otherwise dumped.
@@ -155,12 +159,14 @@ func (sub *safeSubmissionState) setResult(logURL string, sct *ct.SignedCertifica
 			sub.cancels[logURL] = nil
 		}
 	}
+	verifTrace(sub, "setResult", logURL, true)
 }
 
 // groupComplete returns true iff the specified group has all the SCTs it needs.
 func (sub *safeSubmissionState) groupComplete(groupName string) bool {
 	sub.mu.Lock()
 	defer sub.mu.Unlock()
+	verifTrace(sub, "groupComplete", groupName, false)
 	needs, ok := sub.groupNeeds[groupName]
 	if !ok {
 		return true
@@ -177,6 +183,7 @@ func (sub *safeSubmissionState) collectSCTs() []*AssignedSCT {
 			scts = append(scts, &AssignedSCT{LogURL: logURL, SCT: r.sct})
 		}
 	}
+	verifTrace(sub, "collect", "", false)
 	return scts
 }
 
